@@ -5,7 +5,7 @@
 import os, sys
 sys.path.insert(0, os.path.join(os.environ.get("AIOFTP_REPO", "/repo"), "src"))
 OBLIGATION = 'aioftp.server:Server.dispatcher/for-task-in-done::Server.dispatcher/for-task-in-done/exit:a-failed-task-must-not-be-swallowed'
-MODEL = {'current_directory_done!16': False, 'logged_present!13': True, 'user_done!12': True, 'user_present!11': False, 'auth_ok!27': True, 'logged_done!14': False, 'block_size!0': 1, 'restart_offset!10': 0, 'current_directory_present!15': True}
+MODEL = {'auth_ok!27': True, 'user_present!11': True, 'current_directory_done!16': True, 'logged_present!13': True, 'logged_done!14': True, 'user_done!12': True, 'restart_offset!10': 0, 'block_size!0': 1, 'current_directory_present!15': True}
 SOLVER_NOTE = ''
 
 print("obligation", OBLIGATION, "failed; no concrete failing input could be constructed automatically")
